@@ -6,7 +6,6 @@ import (
 	"encoding/binary"
 	"fmt"
 	"math/rand"
-	"os"
 	"sort"
 	"strings"
 	"sync"
@@ -523,6 +522,16 @@ func (cr *concRun) checkC01(c *harness.Case) {
 			}
 		}
 	}
+	// 1b. a failed compare never names the revision it compared with. The failure branch re-reads the key after the
+	// compare was decided; revisions only grow (C02), so a re-read that still shows the expected revision proves that
+	// the key equalled the expectation from before the request until after its compare had been refused.
+	base := strings.TrimSuffix(strings.Split(cr.cfg.kind, "/")[0], "+m")
+	for _, op := range cr.ops {
+		if (op.Kind == "update" || op.Kind == "delete") && op.Exp != 0 && op.Out.Err == "" && !op.Out.Succeeded && op.Out.HasKv && op.Out.KvRev == op.Exp {
+			c.Violatef("C01 failed-compare-answered-with-the-compared-revision engine="+base, cr.witness(op.Key), "key %q: %s was answered \"condition failed\" together with the current key-value, whose revision %d is the very revision the request expected: the key did not differ from the expectation when the compare was refused", op.Key, op, op.Exp)
+			c.Stat("failed_compares_answered_with_the_compared_revision", 1)
+		}
+	}
 	// 2. nothing else landed: engine contents == initial + successes (records at/above the compaction floor)
 	fm := cr.finalModel()
 	dump, err := harness.Dump(cr.eng.KV, coderC.EncodeObjectKey([]byte(harness.Prefix+"/"), 0), coderC.EncodeObjectKey(backend.PrefixEnd([]byte(harness.Prefix+"/")), 0))
@@ -984,14 +993,6 @@ func (cr *concRun) checkC01Linearizable(c *harness.Case) {
 	if cr.stalled {
 		return
 	}
-	if strings.HasPrefix(cr.cfg.kind, "tikv") && os.Getenv("VERIF_LIN_TIKV") == "" {
-		// On the TiKV mock a few heavily contended histories contain a guarded write answered "condition failed"
-		// (a write conflict, which the adapter maps to a failed compare) while reads just before and after still show
-		// the expected revision. Whether that is the mock's optimistic-transaction lock handling or something a real
-		// TiKV would also do could not be established here, so this oracle is not run on it (see DESIGN.md, limits);
-		// the chain, dump and certainty rules above still are.
-		return
-	}
 	model := porcupine.Model{
 		Init: func() interface{} { return regState{} },
 		Step: func(state, input, output interface{}) (bool, interface{}) {
@@ -1076,7 +1077,7 @@ func (cr *concRun) checkC01Linearizable(c *harness.Case) {
 					stuck = append(stuck, fmt.Sprintf("c%d [%d..%d] %+v -> %+v", op.ClientId, op.Call, op.Return, op.Input, op.Output))
 				}
 			}
-			c.Violatef("C01 key-history-not-linearizable", cr.witness(key), "the recorded history of key %q (%d operations, initial state %+v) cannot be explained by any sequential order of conditional writes consistent with real time; longest linearizable part has %d operations, first operations that cannot be placed: %v", key, len(ops), init, longest, stuck)
+			c.Violatef("C01 key-history-not-linearizable engine="+strings.TrimSuffix(strings.Split(cr.cfg.kind, "/")[0], "+m"), cr.witness(key), "the recorded history of key %q (%d operations, initial state %+v) cannot be explained by any sequential order of conditional writes consistent with real time; longest linearizable part has %d operations, first operations that cannot be placed: %v", key, len(ops), init, longest, stuck)
 		case porcupine.Unknown:
 			c.Stat("porcupine_timeouts", 1)
 		default:
